@@ -20,7 +20,7 @@ RULE = ("inputs {single file, flat directory, nested directory, missing path, fi
         "non-empty, or failing input; distinct by SHA-1 of the case")
 ASSUMPTIONS = ["CMake 3.25.1 at /usr/bin/cmake is the host; a CMake list cannot carry ';' unescaped, so values avoid it",
                "the order of the option groups is taken from the documented behaviour of cminx.cmake (input, -r, extras, -o output)"]
-BUDGET = {"quick": {"shards": 8, "examples": 20}, "thorough": {"shards": 16, "examples": 150}}
+BUDGET = {"quick": {"shards": 8, "examples": 25}, "thorough": {"shards": 16, "examples": 150}}
 
 CMAKE = "/usr/bin/cmake"
 PREFIXES = ["pfx", "my prefix", "a.b.c", "préfixe 漢", "p-1", "x y  z", "$dollar", "quo\"te", "back\\slash", "(paren)", "#hash", "N", "OFF", "0", "IGNORE", "a-NOTFOUND", "FALSE", "no"]
